@@ -75,12 +75,31 @@ def make_ops(depth):
     return f
 
 
+ADV_TEXT = ["null", "None", " null\n", "true", "1", "1.5", "[1]", "{}", "\"q\"", "2020-01-02", "", "nan", "0x10", "a\"b"]
+
+
+def adversarial_text_job():
+    """Every str value that reads as something else (JSON / Python literal / number / date / null) at every position where a text
+    member sits next to None or to another member: the wire is quoted text and must come back as that text."""
+    opt = ["union", [["str"], ["none"]], {"sp": "optional"}]
+    tys = [opt, ["union", [["none"], ["str"]], {"sp": "typing"}], ["coll", "list", opt, {"sp": "builtin"}],
+           ["dict", ["str"], opt, {"sp": "builtin"}], ["tuple", [["int"], opt], {"sp": "builtin"}], ["str"]]
+    ops = []
+    for s in ADV_TEXT:
+        for ts in tys:
+            tag = ts[0]
+            v = s if tag in ("union", "str") else (["l", [s, None, s]] if tag == "coll" else (["d", [["k", s]]] if tag == "dict" else ["t", [1, s]]))
+            ops.append({"op": "codec", "ty": ts, "val": v})
+    return {"prog": {"classes": [], "aliases": {}}, "ops": ops}
+
+
 def explore(ctx):
     res = Result()
     res.rule = RULE
     depth = 3 if ctx.tier == "quick" else 4
     n = ctx.n(120, 2000)
     jobs = core.gen_jobs(ctx, n, "c02", dict(max_depth=depth, unions="any"), make_ops(depth))
+    jobs.append(adversarial_text_job())
     real, model = core.run_jobs(jobs)
     res.programs = len(jobs)
     for job, op, r_, m_ in core.iter_results(jobs, real, model):
